@@ -358,7 +358,7 @@ pub fn build(ctl: &'static Ctrl, params: &Value) -> Instance {
                     }
                 }
                 End::Budget => v.push(Violation { kind: "livelock".into(), detail: "step budget exhausted".into() }),
-                End::Tool(_) => {}
+                End::Tool(_) | End::Aborted => {}
             }
             // nothing is lost: whatever was sent successfully and not yet received must still be
             // receivable through an endpoint that is alive
